@@ -530,6 +530,8 @@ func (d *Drv) exec(op *Op, x *Exp) {
 		ev.Emit(d.h(op.E))
 	case KStats:
 		d.checkStats()
+	case KRegType:
+		ecs.TypeID(d.W, u.Filler(1000+op.N))
 	case KMisuse:
 		d.misuse(op)
 	default:
@@ -666,7 +668,7 @@ func (d *Drv) execUnsafe(op *Op, x *Exp) {
 		for _, e := range x.Sel {
 			d.W.RemoveEntity(d.h(e))
 		}
-	case KCopy, KRemoveEntity, KReset, KShrink, KAddRes, KRemoveRes, KStats:
+	case KCopy, KRemoveEntity, KReset, KShrink, KAddRes, KRemoveRes, KStats, KRegType:
 		save := d.ForceUnsafe
 		d.ForceUnsafe = false
 		defer func() { d.ForceUnsafe = save }()
